@@ -18,3 +18,102 @@ func VerifC03_FRMFunc(n int) {
 	verifAssert(verifBytesEq(back, pt), "EncryptFRMPayload: applying twice restores the plaintext")
 	verifReach("done")
 }
+
+func VerifC03_FOptsFunc(n int) {
+	key := verifNondetKey("key")
+	afcnt := verifNondetBool("aFCntDown")
+	up := verifNondetBool("uplink")
+	addr := DevAddr(verifNondet4("devaddr"))
+	fcnt := verifNondetU32("fcnt")
+	pt := verifNondetBytes("pt", n)
+	got, err := EncryptFOpts(AES128Key(key), afcnt, up, addr, fcnt, verifCopy(pt))
+	if n > 15 {
+		verifAssert(err != nil, "EncryptFOpts: more than 15 bytes is rejected")
+		verifReach("rejected")
+		return
+	}
+	want := specFOptsCrypt(key, afcnt, up, addr, fcnt, pt)
+	verifAssert(err == nil, "EncryptFOpts: no error")
+	verifAssert(verifBytesEq(got, want), "EncryptFOpts: output == pt xor spec FOpts keystream block")
+	back, err2 := EncryptFOpts(AES128Key(key), afcnt, up, addr, fcnt, verifCopy(got))
+	verifAssert(err2 == nil, "EncryptFOpts (2nd): no error")
+	verifAssert(verifBytesEq(back, pt), "EncryptFOpts: applying twice restores the plaintext")
+	verifReach("done")
+}
+
+func c03MType(mt int) MType {
+	switch mt {
+	case 0:
+		return UnconfirmedDataUp
+	case 1:
+		return UnconfirmedDataDown
+	case 2:
+		return ConfirmedDataUp
+	}
+	return ConfirmedDataDown
+}
+
+// PHYPayload.EncryptFRMPayload / DecryptFRMPayload: success => the stored bytes are the spec transform.
+func VerifC03_PHYFRM(mt, fpMode, n int) {
+	d := newSpecData(c03MType(mt), 0, fpMode, n)
+	key := verifNondetKey("key")
+	p := d.phy()
+	err := p.EncryptFRMPayload(AES128Key(key))
+	verifAssert(err == nil, "PHYPayload.EncryptFRMPayload: no error")
+	mp := p.MACPayload.(*MACPayload)
+	if n == 0 || fpMode == 0 {
+		verifAssert(len(mp.FRMPayload) == 0, "PHYPayload.EncryptFRMPayload: empty payload stays empty")
+		verifReach("empty")
+		return
+	}
+	want := specFRMCrypt(key, specIsUplink(d.mtype), d.addr, d.fcnt, d.frm)
+	verifAssert(len(mp.FRMPayload) == 1, "PHYPayload.EncryptFRMPayload: one payload stored")
+	dp, ok := mp.FRMPayload[0].(*DataPayload)
+	verifAssert(ok, "PHYPayload.EncryptFRMPayload: stored as DataPayload")
+	verifAssert(verifBytesEq(dp.Bytes, want), "PHYPayload.EncryptFRMPayload: stored bytes == spec ciphertext")
+	if fpMode == 2 {
+		err = p.DecryptFRMPayload(AES128Key(key))
+		verifAssert(err == nil, "PHYPayload.DecryptFRMPayload: no error")
+		mp = p.MACPayload.(*MACPayload)
+		verifAssert(len(mp.FRMPayload) == 1, "PHYPayload.DecryptFRMPayload: one payload stored")
+		dp2, ok2 := mp.FRMPayload[0].(*DataPayload)
+		verifAssert(ok2, "PHYPayload.DecryptFRMPayload: stored as DataPayload")
+		verifAssert(verifBytesEq(dp2.Bytes, d.frm), "PHYPayload.DecryptFRMPayload: restores the plaintext")
+	}
+	verifReach("done")
+}
+
+// PHYPayload.EncryptFOpts: AFCntDown variant exactly for downlinks with FPort > 0.
+func VerifC03_PHYFOpts(mt, fpMode, n int) {
+	nFRM := 0
+	if fpMode == 2 {
+		nFRM = 3
+	}
+	d := newSpecData(c03MType(mt), n, fpMode, nFRM)
+	key := verifNondetKey("key")
+	p := d.phy()
+	err := p.EncryptFOpts(AES128Key(key))
+	mp := p.MACPayload.(*MACPayload)
+	if n == 0 {
+		verifAssert(err == nil, "PHYPayload.EncryptFOpts: no error on empty FOpts")
+		verifAssert(len(mp.FHDR.FOpts) == 0, "PHYPayload.EncryptFOpts: empty FOpts stay empty")
+		verifReach("empty")
+		return
+	}
+	if n > 15 {
+		verifAssert(err != nil, "PHYPayload.EncryptFOpts: more than 15 bytes is rejected")
+		err = d.phy().DecryptFOpts(AES128Key(key))
+		verifAssertKnown("C03-decryptfopts-swallows-error", true, err != nil, "PHYPayload.DecryptFOpts: reports the error of the failed transform instead of success")
+		verifReach("rejected")
+		return
+	}
+	up := specIsUplink(d.mtype)
+	afcnt := !up && fpMode == 2
+	want := specFOptsCrypt(key, afcnt, up, d.addr, d.fcnt, d.fopts)
+	verifAssert(err == nil, "PHYPayload.EncryptFOpts: no error")
+	verifAssert(len(mp.FHDR.FOpts) == 1, "PHYPayload.EncryptFOpts: one payload stored")
+	dp, ok := mp.FHDR.FOpts[0].(*DataPayload)
+	verifAssert(ok, "PHYPayload.EncryptFOpts: stored as DataPayload")
+	verifAssert(verifBytesEq(dp.Bytes, want), "PHYPayload.EncryptFOpts: stored bytes == spec ciphertext (A[4] variant by direction and FPort)")
+	verifReach("done")
+}
